@@ -17,4 +17,5 @@ OWN_PLAN = {
     },
     "core": lambda s: bool(s["expect"].get("modelViol")),
     "drift": fam_own.drift,
+    "drift_fam": "own",
 }
